@@ -121,10 +121,10 @@ def main():
         "version": 1,
         "setup_cmd": "cd /verif/lean && lake build",
         "hooks": {
-            "guard": "PSTLAB_ORATIO_VERIF",
+            "guard": "PSTLAB_ORATIO_VERIF",  # the LRA visiting-order hook additionally needs PSTLAB_ORATIO_VERIF_ORDERED (only the net harness defines it)
             "enable": "harnesses are compiled by tools/vlib.py from /repo's working tree with -DPSTLAB_ORATIO_VERIF (direct g++ of the needed sources, or cmake -DCMAKE_CXX_FLAGS=-DPSTLAB_ORATIO_VERIF for whole-solver checks)",
             "baseline_off_cmd": "/verif/tools/baseline.sh",
-            "source_commits": ["813cd3840c821cd6d4af965a7ffa805809ef787e", "5311fb2bcabb48eb3ca8984db0a16f5b698f55f0", "bc51bcc8daa088058beee1ccaaf62b6b0b8ac656"],
+            "source_commits": ["813cd3840c821cd6d4af965a7ffa805809ef787e", "5311fb2bcabb48eb3ca8984db0a16f5b698f55f0", "bc51bcc8daa088058beee1ccaaf62b6b0b8ac656", "683a931897055b0394caa93b54ea36da12f30848"],
             "add_only": True,
         },
         "engines": [{"name": "lean-proof+correspondence", "path": "/verif/tools/run.py",
